@@ -6,7 +6,9 @@ package main
 // verdict with.
 
 import (
+	"math"
 	"regexp"
+	"strings"
 	"unicode/utf8"
 
 	"github.com/pentops/j5/lib/id62"
@@ -27,6 +29,8 @@ func isZero(v Value) bool {
 		return !v.B
 	case "enum":
 		return v.I == 0
+	case "float":
+		return math.Float64bits(v.F) == 0 // +0; -0 is a set value (protobuf)
 	}
 	return false
 }
@@ -54,6 +58,10 @@ func valueEq(a, b Value) bool {
 		return a.B == b.B
 	case "enum":
 		return a.I == b.I
+	case "float":
+		return a.F == b.F // as numbers: +0 = -0, NaN equals nothing
+	case "msg":
+		return a.I == b.I
 	}
 	return false
 }
@@ -62,10 +70,19 @@ func isTrue(b *bool) bool { return b != nil && *b }
 
 // enum option number by (short or prefixed) name; 0 when unknown
 func optionNumber(env EnumEnv, name string) int64 {
+	full := func(n string) string {
+		if !strings.HasPrefix(n, env.Prefix) {
+			return env.Prefix + n
+		}
+		return n
+	}
 	for i, o := range env.Options {
-		if name == o || name == env.Prefix+o {
+		if full(name) == full(o) {
 			return int64(i + 1)
 		}
+	}
+	if env.Unspecified != "" && full(name) == full(env.Unspecified) {
+		return 0 // the explicit zero option
 	}
 	return -1
 }
@@ -180,20 +197,49 @@ func isPrimary(p Prop) bool {
 	return p.T.Kind == TKey && p.T.Entity != nil && p.T.Entity.Primary != nil && *p.T.Entity.Primary
 }
 
-// ruleSem: does the value of the compiled field satisfy what the property declares?
+func isMsgKind(k TyKind) bool { return k >= TDate }
+
+// keyPlacementOK: entity.primaryKey has a declared meaning only on a singular key
+// property (schema.proto: "only valid in the keys object of an entity"); inside
+// an array or a map the oracle does not judge the declaration.
+func keyPlacementOK(p Prop) bool { return p.PK == PSingle || !isPrimary(p) }
+
+func patternCompiles(pat string) bool {
+	_, err := regexp.Compile(pat)
+	return err == nil
+}
+
+// patternsOK: every pattern the declaration carries is a valid RE2 expression
+func patternsOK(p Prop) bool {
+	switch p.T.Kind {
+	case TStr:
+		return p.T.Str == nil || p.T.Str.Pat == nil || patternCompiles(*p.T.Str.Pat)
+	case TKey:
+		return p.T.KF != KCustom || patternCompiles(p.T.KPat)
+	}
+	return true
+}
+
+// uniqueOnMessages: uniqueItems = true on an array whose items are messages
+func uniqueOnMessages(p Prop) bool {
+	return p.PK == PArray && p.Arr != nil && isTrue(p.Arr.Uniq) && isMsgKind(p.T.Kind)
+}
+
+// ruleSem: does the value of the compiled field satisfy what the property
+// declares? (patterns must compile: patternsOK)
 func ruleSem(env EnumEnv, p Prop, fv FValue) bool {
-	req := p.Req || isPrimary(p)
+	must := p.Req || (p.PK == PSingle && isPrimary(p))
 	switch p.PK {
 	case PSingle:
 		if fv.Absent {
-			return !req
+			return !must
 		}
-		if req && !p.Opt && p.T.Kind < TDate && isZero(fv.One) {
-			return false // an implicit-presence scalar at its zero value is not populated
+		if must && !p.Opt && !isMsgKind(p.T.Kind) && isZero(fv.One) {
+			return false // an implicit-presence scalar at its default value is not populated
 		}
 		return tyOK(env, p.T, fv.One)
 	case PMap:
-		if p.Req && len(fv.List) == 0 {
+		if must && len(fv.List) == 0 {
 			return false
 		}
 		if m := p.MapR; m != nil {
@@ -212,7 +258,7 @@ func ruleSem(env EnumEnv, p Prop, fv FValue) bool {
 		}
 		return true
 	case PArray:
-		if req && len(fv.List) == 0 {
+		if must && len(fv.List) == 0 {
 			return false
 		}
 		if a := p.Arr; a != nil {
